@@ -203,16 +203,22 @@ httpHeaderParseQuotedString(const char *start, const int len, String *val)
         bool quoted = (*pos == '\\');
         if (quoted) {
             ++pos;
-            if (!*pos || (pos-start) > len) {
+            // quoted-pair = "\" ( HTAB / SP / VCHAR / obs-text ); the escaped octet must lie inside the field
+            if (!*pos || (pos-start) >= len ||
+                    ((unsigned char)*pos <= 0x1F && *pos != '\t') || *pos == 0x7F) {
                 debugs(66, 2, "failed to parse a quoted-string header field near '" << start << "'");
                 val->clean();
                 return 0;
             }
         }
         end = pos;
-        while (end < (start+len) && *end != '\\' && *end != '\"' && (unsigned char)*end > 0x1F && *end != 0x7F)
+        if (quoted)
+            ++end; // the escaped octet is taken literally, even when it is DQUOTE or backslash
+        // qdtext includes HTAB
+        while (end < (start+len) && *end != '\\' && *end != '\"' &&
+                ((unsigned char)*end > 0x1F || *end == '\t') && *end != 0x7F)
             ++end;
-        if (((unsigned char)*end <= 0x1F && *end != '\r' && *end != '\n') || *end == 0x7F) {
+        if (((unsigned char)*end <= 0x1F && *end != '\r' && *end != '\n' && *end != '\t') || *end == 0x7F) {
             debugs(66, 2, "failed to parse a quoted-string header field with CTL octet " << (start-pos)
                    << " bytes into '" << start << "'");
             val->clean();
